@@ -68,6 +68,15 @@ def floatText : FloatText → Bytes
           | none => []
           | some (eneg, ed) => 0x65 :: (if eneg then 0x2D else 0x2B) :: digitChars ed)
 
+/-- `SexpFloat.SexpString` (repo fix C12-03): the text of `FormatFloat(v, 'f', -1, 64)` gets
+`.0` appended when it holds none of `.`, `I`, `N` (a whole number); the `'e'` text (which always
+has an exponent), `NaN`, `+Inf`, `-Inf` are written as they are. -/
+def floatPrinted : FloatText → Bytes
+  | .dec neg ip fp ex =>
+    if fp.isEmpty && ex.isNone then floatText (.dec neg ip fp ex) ++ [0x2E, 0x30] else floatText (.dec neg ip fp ex)
+  | .raw t =>
+    if t.any (fun b => b == 0x2E || b == 0x49 || b == 0x4E || b == 0x65) then t else t ++ [0x2E, 0x30]
+
 def intercalate (sep : Bytes) : List Bytes → Bytes
   | [] => []
   | [a] => a
@@ -80,7 +89,7 @@ def sexpString : V → Bytes
   | .bool b => if b then asciiBytes "true" else asciiBytes "false"
   | .int n => itoa n
   | .uint n => digitChars (natDigits n) ++ asciiBytes "ULL"
-  | .flt f => floatText f.text
+  | .flt f => floatPrinted f.text
   | .char c => quoteRune c
   | .str s bt => if bt then 0x60 :: s ++ [0x60] else quote s
   | .sym n => n
@@ -96,13 +105,13 @@ def sexpStringSep : List V → Bytes
   | [] => []
   | [a] => sexpString a
   | a :: b :: r => sexpString a ++ [0x20] ++ sexpStringSep (b :: r)
-/-- `key:value` pairs separated by one space (string keys `"raw":`, symbol keys bare) -/
+/-- `key:value` pairs separated by one space (string keys quoted, symbol keys bare) -/
 def hashEntries : List (V × V) → Bytes
   | [] => []
   | [(k, v)] => hashKey k ++ [0x3A] ++ sexpString v
   | (k, v) :: e :: r => hashKey k ++ [0x3A] ++ sexpString v ++ [0x20] ++ hashEntries (e :: r)
 def hashKey : V → Bytes
-  | .str s _ => 0x22 :: s ++ [0x22]
+  | .str s _ => quote s            -- repo fix C12-04 (was the raw bytes between two quotes)
   | .sym n => n
   | k => sexpString k
 end
